@@ -1,7 +1,6 @@
 package main
 
 import (
-	"go/token"
 
 	"golang.org/x/tools/go/ssa"
 )
@@ -14,36 +13,14 @@ func init() {
 	})
 }
 
-// countedFromZero: cell is a loop counter: stores are `0` and `cell+1`, and the
-// loop condition is cell < bound.
+// countedFromZero: cell is the counter of `for i := 0; i < bound; i++` (see
+// FnIndex.countedLoop for what exactly is required).
 func (x *FnIndex) countedFromZero(cell *ssa.Alloc) (bound ssa.Value, ok bool) {
-	st := x.stores[cell]
-	if len(st) != 2 {
+	c := x.countedLoop(cell)
+	if c == nil || c.start != 0 || c.boundAdd != 0 {
 		return nil, false
 	}
-	zero, step := false, false
-	for _, s := range st {
-		if k, isK := constInt(s.Val); isK && k == 0 {
-			zero = true
-		}
-		if bo, isB := s.Val.(*ssa.BinOp); isB && bo.Op == token.ADD && x.Cell(bo.X) == cell {
-			if k, isK := constInt(bo.Y); isK && k == 1 {
-				step = true
-			}
-		}
-	}
-	if !zero || !step {
-		return nil, false
-	}
-	var b ssa.Value
-	eachInstr(cell.Parent(), func(in ssa.Instruction) {
-		if iff, isIf := in.(*ssa.If); isIf {
-			if bo, isB := iff.Cond.(*ssa.BinOp); isB && bo.Op == token.LSS && x.Cell(bo.X) == cell {
-				b = bo.Y
-			}
-		}
-	})
-	return b, b != nil
+	return c.bound, true
 }
 
 func runC13(c *Ctx) {
@@ -126,26 +103,19 @@ func runC13(c *Ctx) {
 		for i, lk := range sel.lookups {
 			ok := false
 			why := "key is " + x.Describe(lk.Index)
-			// key = *(&(*(&dag[i]))[j])
-			if u, isU := x.Origin(lk.Index).(*ssa.UnOp); isU {
-				if ia, isIA := u.X.(*ssa.IndexAddr); isIA {
-					jc := x.Cell(ia.Index)
-					if u2, isU2 := x.Origin(ia.X).(*ssa.UnOp); isU2 {
-						if ia2, isIA2 := u2.X.(*ssa.IndexAddr); isIA2 {
-							ic := x.Cell(ia2.Index)
-							_, isParam := x.Origin(ia2.X).(*ssa.Parameter)
-							if jc != nil && ic != nil && isParam {
-								jb, ok1 := x.countedFromZero(jc)
-								ib, ok2 := x.countedFromZero(ic)
-								if ok1 && ok2 {
-									okj := x.symInt(jb).equal(x.symLen(ia.X))
-									oki := x.symInt(ib).equal(x.symLen(ia2.X))
-									ok = okj && oki
-									why = "dag[i][j], i in [0,len(dag)), j in [0,len(dag[i]))"
-									if !ok {
-										why = "loop bounds are " + x.symInt(ib).String() + " and " + x.symInt(jb).String()
-									}
-								}
+			// key = dag[i][j]: the element of a loop over the whole of dag[i], which is itself the
+			// element of a loop over the whole of the dag parameter (range or index loops)
+			whole := func(v ssa.Value) (ssa.Value, bool) {
+				base, lo, hi := x.sliceInterval(v)
+				return base, lo.equal(constForm(0)) && hi.equal(x.symLen(base))
+			}
+			if sIn, lIn, ok1 := x.rangedSlice(lk.Index); ok1 {
+				if _, wIn := whole(sIn); wIn {
+					if sOut, lOut, ok2 := x.rangedSlice(sIn); ok2 && lOut != lIn && lOut.Blocks[lIn.Head] {
+						if bOut, wOut := whole(sOut); wOut {
+							if _, isParam := x.Origin(bOut).(*ssa.Parameter); isParam {
+								ok = true
+								why = "dag[i][j], i over the whole dag, j over the whole of dag[i]"
 							}
 						}
 					}
